@@ -111,6 +111,20 @@ def run_program(item):
                 dp, rows = materialise(Flow(link).datastream(as_datastream(dp, rows)))
             return final_results(dp, rows)
 
+        def stepwise_results():
+            # ... the materialised output of a step taken the way a user takes it: through results() (rows as the closing validation
+            # returns them).  What the next step sees in the chain is what it would see of that materialised output.
+            from dataflows import DataStreamProcessor
+            from dataflows.base.schema_validator import raise_exception
+
+            def mat(ds):
+                res, dp2, _ = DataStreamProcessor()(ds).results(on_error=raise_exception)
+                return dp2, [[copy.deepcopy(dict(r)) for r in rows_] for rows_ in res]
+            dp, rows = mat(Flow(*src()).datastream())
+            for link in links():
+                dp, rows = mat(Flow(link).datastream(as_datastream(dp, rows)))
+            return final_results(dp, rows)
+
         ref = run_guard(chained)
         sw = run_guard(stepwise)
         diffs = []
@@ -121,6 +135,8 @@ def run_program(item):
             elif ref[0] == 'ok' and canon(ref[1]) != canon(other[1]):
                 diffs.append(dict(variant=label, chained=ref[1], other=other[1]))
         cmp('step-by-step', sw)
+        if ref[0] == 'ok':
+            cmp('step-by-step through results()', run_guard(stepwise_results))
         n = len(names)
         if ref[0] == 'ok':
             for k in range(0, n + 1):
@@ -244,6 +260,10 @@ def programs(r, t):
         for b in ('rename_a', 'delete_fields_b', 'set_type_a_string', 'find_replace_b', 'unpivot', 'update_schema', 'update_resource', 'set_type_bc_tf'):
             progs.append(dict(prog=[a, b], input='I1'))
             progs.append(dict(prog=[a, b, 'add_field'], input='I5'))
+    # what a later step sees of an iterable source is what the loader CAST (blank text is a null)
+    for inp in ('I0', 'I1'):
+        progs.append(dict(prog=['source_blank', 'filter_b_notnull'], input=inp))
+        progs.append(dict(prog=['source_blank', 'row_new', 'filter_b_notnull', 'add_field'], input=inp))
     # a join followed by steps that read the joined field of every row (unmatched target rows carry it as a null)
     for b in ('find_replace_b', 'sort_a', 'rename_a', 'acf_format', 'set_type_bc_tf'):
         progs.append(dict(prog=['join', b], input='I1'))
